@@ -781,9 +781,13 @@ def namesCountProps : List (String × Bool × Bool × Bool × CN) → Nat
   | (_, _, _, _, x) :: xs => namesCount x + namesCountProps xs
 end
 
-/-- enough for every chain of references: each step consumes a name of a list or enters a type not yet on the path -/
+/-- enough for every chain of references: each step consumes a name of a list or enters a type not yet on the path.
+A chain that starts at the root of a named type may come back to that type once (the starting node is not on the path
+set), and a name may occur several times in one list: the names of the starting list count twice — hence `2 *`
+(`BridgeCK.checkA_no_fuel`: this amount is never exhausted; `ts.length + 2 + names` was not enough for
+`@T = 1 // {or: ["@x" × 7, "@a"]}`, `@a = 2 // {type: "@T"}`, where the library answers 1303) -/
 def checkFuel (root : Option CN) (ts : Types) : Nat :=
-  ts.length + 2 + (match root with | some r => namesCount r | none => 0) + (ts.map fun t => namesCount t.2).sum
+  ts.length + 2 + 2 * ((match root with | some r => namesCount r | none => 0) + (ts.map fun t => namesCount t.2).sum)
 
 def checkTypes (ts : Types) (fuel : Nat) : List String → Except Err Unit
   | [] => .ok ()
